@@ -274,8 +274,8 @@ REGISTRY = {
         'assumptions': ['functools.singledispatch on plain (non-ABC) classes = first class of type.__mro__ present in the registry; type.__mro__ is an input'],
     },
     'C19': {
-        'theorems': ['PP.C15.history_independent', 'PP.C15.refines', 'PP.C19.pure_function'],
-        'modules': ['PP.Model.Registry', 'PP.Props.C15', 'PP.Props.C19'],
+        'theorems': ['PP.C15.history_independent', 'PP.C15.refines', 'PP.C19.pure_function', 'PP.C19.state_inventory'],
+        'modules': ['PP.Model.Registry', 'PP.Props.C15', 'PP.Props.C19', 'PP.Generated', 'PP.Props.StateInventory'],
         'sections': [{'name': 'purity', 'run': simple_sec('sec_purity', 'purity_section')},
                      {'name': 'registry-histories', 'run': simple_sec('sec_registry', 'registry_section')}],
         'rule': 'permutations / repetitions vs fresh-interpreter outputs; deep snapshots before and after',
@@ -283,8 +283,8 @@ REGISTRY = {
                         'Not covered: mutation through user __eq__/__hash__/__missing__ side effects, generators'],
     },
     'C20': {
-        'theorems': ['PP.C20.linearizable', 'PP.C20.step_inv'],
-        'modules': ['PP.Model.Registry', 'PP.Model.Threads', 'PP.Props.C20'],
+        'theorems': ['PP.C20.linearizable', 'PP.C20.step_inv', 'PP.C19.state_inventory'],
+        'modules': ['PP.Model.Registry', 'PP.Model.Threads', 'PP.Props.C20', 'PP.Generated', 'PP.Props.StateInventory'],
         'sections': [{'name': 'schedules', 'run': simple_sec('sec_threads', 'threads_section')},
                      {'name': 'line-preemption', 'run': simple_sec('sec_threads', 'line_section')}],
         'rule': 'all schedules up to a pre-emption bound, switch points at every access to the shared registry state',
